@@ -1,4 +1,4 @@
-\* two channels, logs <= 2, no probes: measured below
+\* two channels, logs <= 2, no probes: 35,714 distinct / 184,506 generated states, depth 27, ~20 s with 4 workers on a loaded machine
 SPECIFICATION Spec
 CONSTANTS
   ChanSeq <- MCChanSeq2
